@@ -93,6 +93,7 @@ theorem balSearch_spec (o c : Char) (s : List Char) : ∀ (k p : Nat), s.length 
 /-- what the code takes a regular-expression part to be (true of Python's `re`; true of the `Rx` model by construction) -/
 structure RxContract (rx : RxO) : Prop where
   matchStart : ∀ id s p m, rx id s p false = some m → m.1 = p ∧ p ≤ s.length ∧ m.1 ≤ m.2
+  matchEnd : ∀ id s p m, rx id s p false = some m → m.2 ≤ s.length
   searchSome : ∀ id s p m, rx id s p true = some m →
     p ≤ m.1 ∧ rx id s m.1 false = some m ∧ ∀ a, p ≤ a → a < m.1 → rx id s a false = none
   searchNone : ∀ id s p, rx id s p true = none → ∀ a, p ≤ a → a ≤ s.length → rx id s a false = none
